@@ -5,6 +5,7 @@ import (
 	"fmt"
 	"go/token"
 	"strings"
+	"unicode/utf8"
 
 	"golang.org/x/tools/go/analysis"
 
@@ -93,10 +94,18 @@ func (r *Reporter) formatPrettyError(violation Violation) string {
 		builder.WriteString(strings.Repeat(" ", lineNumWidth))
 		builder.WriteString(" |\n")
 
+		// position.Column counts bytes; the excerpt is laid out in characters
+		column := position.Column
+		for i, line := range lines.content {
+			if lines.lineNumbers[i] == position.Line {
+				column = runeColumn(line, position.Column)
+			}
+		}
+
 		// Display lines with context
 		for i, line := range lines.content {
 			lineNum := lines.lineNumbers[i]
-			truncatedLine := truncateString(line, MaxLineLength, position.Column)
+			truncatedLine := truncateString(line, MaxLineLength, column)
 			builder.WriteString(fmt.Sprintf("%*d | ", lineNumWidth, lineNum))
 			builder.WriteString(truncatedLine)
 			builder.WriteString("\n")
@@ -107,11 +116,12 @@ func (r *Reporter) formatPrettyError(violation Violation) string {
 				builder.WriteString(" | ")
 
 				// Calculate column position in truncated line
-				displayColumn := calculateDisplayColumn(line, position.Column, MaxLineLength)
+				displayColumn := calculateDisplayColumn(line, column, MaxLineLength)
 
 				// Add spaces to align the pointer
+				truncatedRunes := []rune(truncatedLine)
 				for i := 1; i < displayColumn; i++ {
-					if i-1 < len(truncatedLine) && truncatedLine[i-1] == '\t' {
+					if i-1 < len(truncatedRunes) && truncatedRunes[i-1] == '\t' {
 						builder.WriteString("\t")
 					} else {
 						builder.WriteString(" ")
@@ -190,14 +200,28 @@ func (r *Reporter) readSourceLines(filename string, lineNum, before, after int) 
 	return result
 }
 
+// runeColumn converts a 1-based byte column within line to a 1-based character column
+func runeColumn(line string, byteColumn int) int {
+	offset := byteColumn - 1
+	if offset < 0 {
+		offset = 0
+	}
+	if offset > len(line) {
+		offset = len(line)
+	}
+	return utf8.RuneCountInString(line[:offset]) + 1
+}
+
 // truncateString truncates a string to the specified length, ensuring position is included
-func truncateString(s string, maxLen int, pos int) string {
+// Lengths and positions are counted in characters, not bytes
+func truncateString(str string, maxLen int, pos int) string {
+	s := []rune(str)
 	if len(s) <= maxLen {
-		return s
+		return str
 	}
 
 	if maxLen <= 3 {
-		return s[:maxLen]
+		return string(s[:maxLen])
 	}
 
 	// Convert pos to 0-based index
@@ -211,12 +235,12 @@ func truncateString(s string, maxLen int, pos int) string {
 
 	// If position fits in the first part, truncate from end
 	if pos0 < maxLen-3 {
-		return s[:maxLen-3] + "..."
+		return string(s[:maxLen-3]) + "..."
 	}
 
 	// If position is near the end, truncate from beginning
 	if pos0 >= len(s)-maxLen+3 {
-		return "..." + s[len(s)-maxLen+3:]
+		return "..." + string(s[len(s)-maxLen+3:])
 	}
 
 	// Position is in the middle, truncate from both sides
@@ -234,11 +258,12 @@ func truncateString(s string, maxLen int, pos int) string {
 		end = len(s)
 	}
 
-	return "..." + s[start:end] + "..."
+	return "..." + string(s[start:end]) + "..."
 }
 
 // calculateDisplayColumn calculates the column position in the truncated string
-func calculateDisplayColumn(originalLine string, originalPos, maxLen int) int {
+func calculateDisplayColumn(line string, originalPos, maxLen int) int {
+	originalLine := []rune(line)
 	if len(originalLine) <= maxLen {
 		return originalPos
 	}
